@@ -141,6 +141,31 @@ def runFrom (cfg : Cfg) (st : St) (evs : List Ev) : St := evs.foldl (step cfg) s
 
 def run (cfg : Cfg) (asm : Frame) (evs : List Ev) : St := runFrom cfg (init asm) evs
 
+/-! ### the group started again
+
+`SyncGroup.start` may be called again once the task has ended: it allocates anew (`self.packet`, hence the counter
+table, `pdo_assign`, hence the variables' positions), assembles the new packet and makes a new process image; `run` sets
+`wkc_errors` to 0 and then 1.  The only thing a `SyncGroup` object carries from one run into the next is
+`missed_counter` (a class attribute that `+=` turns into an instance attribute; never reset). -/
+
+/-- the state `start()` + the beginning of `run()` produce on a group that ran before -/
+def restart (prev : St) (asm : Frame) : St := { init asm with missed := prev.missed }
+
+/-- one run of the group's life: the layout `allocate` computed for the configuration of that time, the packet assembled
+for it, the bus events of that run -/
+structure Run where
+  cfg : Cfg
+  asm : Frame
+  evs : List Ev
+
+/-- the state at the end of a history of runs of one group object (oldest first) -/
+def lifeFrom (prev : St) : List Run → St
+  | [] => prev
+  | r :: rs => lifeFrom (runFrom r.cfg (restart prev r.asm) r.evs) rs
+
+/-- the group's state at the end of its latest run, given all its earlier runs -/
+def runAfter (hist : List Run) (r : Run) : St := lifeFrom (init []) (hist ++ [r])
+
 /-! ### layout hypotheses (what `allocate` has to establish; decidable, evaluated by the driver) -/
 
 /-- the variable lies inside a frame of `L` bytes -/
